@@ -364,6 +364,13 @@ class GateModel:
         return []
 
 
+GateModel.replay_id = {"cls": "GateModel"}
+
+
+def make_model(desc):
+    return GateModel()
+
+
 def histories(tier):
     st = bfs(GateModel(), 4 if tier == "thorough" else 3, budget_s=1200 if tier == "thorough" else 150)
     return st
